@@ -134,7 +134,10 @@ def _cert(acc, job, deadline):
 
     def build():
         cons = mc.make_moment(name, bk, ratio if bk == "ratio" else eps, eps)
-        lag = _Lagrangian(X=X, y=list(y), estimator=ExactLearner(), constraints=cons, B=B, sensitive_features=sf)
+        # every other job: a learner that is NOT an sklearn estimator (no get_params) and keeps its fitted model in a mutable container created by
+        # __init__ - the documented fallback for such estimators is a deep copy per oracle call, so stored predictors never share that container
+        lag = _Lagrangian(X=X, y=list(y), estimator=PlainExactLearner() if sum(job["id"].encode()) % 2 else ExactLearner(), constraints=cons, B=B,
+                          sensitive_features=sf)
         for v in pool[:4]:
             lag.best_h(pd.Series(v, index=cons.index, dtype=float))
         return lag, cons
@@ -206,6 +209,24 @@ def _cert(acc, job, deadline):
         acc.canary(ctx, "canary_cert", g <= -1)
 
     acc.explore(run, on_ok, deadline=deadline, max_paths=job["cap"])
+
+
+class PlainExactLearner:
+    """the exact learner as a plain Python object: no get_params / set_params, fitted state inside a mutable dict made by the constructor"""
+
+    def __init__(self):
+        self.state = {}
+
+    def fit(self, X, y, sample_weight=None):
+        self.state["map"] = ExactLearner().fit(X, y, sample_weight=sample_weight).map_
+        return self
+
+    @property
+    def map_(self):
+        return self.state["map"]
+
+    def predict(self, X):
+        return np.array([self.state["map"][int(v)] for v in np.asarray(X)[:, 0]])
 
 
 # ---- H-book ------------------------------------------------------------------------------------------
